@@ -189,6 +189,9 @@ def deref_expr(prog, fn, expr):
         if isinstance(b_, ast.Name) and (b_ is not t_ or k_ == "aug"):
             mutated.add(b_.id)
 
+    # values bound by tuple unpacking (``a, b = f()``) are not definitions of the single names
+    unpacked_values = {id(v_) for t_, v_, s_, k_ in iter_stores(fn.node) if k_.startswith("assign[") and v_ is not None and not isinstance(v_, (ast.Tuple, ast.List))}
+
     class D(ast.NodeTransformer):
         def __init__(self):
             self.depth = 0
@@ -218,7 +221,7 @@ def deref_expr(prog, fn, expr):
         def visit_Name(self, node):
             if isinstance(node.ctx, ast.Load) and self.depth < 4 and node.id not in mutated:
                 defs = reaching_assignments(prog, fn, node.id, expr)
-                if len(defs) == 1 and defs[0] is not None and not isinstance(defs[0], ast.Name):
+                if len(defs) == 1 and defs[0] is not None and not isinstance(defs[0], ast.Name) and id(defs[0]) not in unpacked_values:
                     self.depth += 1
                     try:
                         return self.visit(copy.deepcopy(defs[0]))
